@@ -96,6 +96,7 @@ def get_repo():
     canon.desugar_filter_loops(data0)
     canon.unroll_literal_loops(data0)
     canon.desugar_match_letelse(data0)
+    canon.desugar_okor_try(data0)
     canon.merge_bool_arms(data0)
     canon.expand_self(data0)
     if ref:
